@@ -247,7 +247,19 @@ func (ns *NamespaceStore) loadNamespacesRecursive(
 			if err := sealConfigEntry.DecodeJSON(&sealConfig); err != nil {
 				return false, fmt.Errorf("failed to decode seal config entry for namespace %s: %w", namespace.ID, err)
 			}
-			return true, ns.core.sealManager.SetSeal(ctx, &sealConfig, &namespace, false)
+			if err := ns.core.sealManager.SetSeal(ctx, &sealConfig, &namespace, false); err != nil {
+				return false, err
+			}
+			// A namespace the operator sealed stays sealed on this node as well,
+			// whether or not the notice of the seal ever got here.
+			if namespace.ManuallySealed {
+				if b := ns.core.sealManager.NamespaceBarrier(namespace.Path); b != nil && !b.Sealed() {
+					if err := b.Seal(); err != nil {
+						return false, err
+					}
+				}
+			}
+			return true, nil
 		}
 
 		if err := ns.loadNamespacesRecursive(ctx, barrier, childView, callback); err != nil {
